@@ -17,7 +17,7 @@ package main
 //   schedule must print the same line. Oracle: every reader hit equals the chain answer over the final tree; the
 //   sequential lookups that follow the conc op are judged strictly (visible after commit, nothing overwritten).
 //
-// c08race (free-running, race detector): `race <seed> <committers> <readers> <blocksPerRun> <keys> <millis>` is
+// c08race (free-running, race detector): `race <seed> <committers> <readers> <blocksPerRun> <keys> <millis> [sbhcommit]` is
 //   executed in a child process of this binary (built with -race): committers grow a block tree and commit
 //   concurrently, readers look up random (key, block) pairs at ancestors / in-flight blocks / descendants through
 //   StateCache, QueryBlockCache and BlockCache; every hit is compared with the chain answer over the blocks
@@ -397,13 +397,20 @@ func genC08(r *rand.Rand, tier string, idx int) []string {
 
 var raceEnabled = false // set by race_on.go (build tag race)
 
-func runC08Race(ops []string) CaseResult {
+func runC08Race(ops []string) CaseResult { return runC08Child(ops, true) }
+
+// runC08Free runs the same free-running workload without the race detector (an order of magnitude more interleavings
+// per second): only the semantic oracles apply (every hit = chain answer, own writes found after Commit, final sweep).
+func runC08Free(ops []string) CaseResult { return runC08Child(ops, false) }
+
+func runC08Child(ops []string, needRace bool) CaseResult {
 	res := CaseResult{}
 	for i, op := range ops {
 		f := strings.Fields(op)
-		if f[0] != "race" || len(f) != 7 {
+		if f[0] != "race" || (len(f) != 7 && len(f) != 8) {
 			panic("malformed op: " + op)
 		}
+		sbhCommit := len(f) == 8 && f[7] == "sbhcommit"
 		exe, err := os.Executable()
 		if err != nil {
 			panic(err)
@@ -432,6 +439,13 @@ func runC08Race(ops []string) CaseResult {
 			}
 			res.Fails = append(res.Fails, fmt.Sprintf("op %d (%s): the race detector reported a data race:\n%s", i, op, rep))
 			out = "race"
+			// narrow matcher of the open finding C08-setblockhash-commit-race: the case lets SetBlockHash overlap Commit,
+			// and the (single: halt_on_error) report is exactly SetBlockHash's write against commit()'s own read
+			if sbhCommit && len(res.Fails) == 1 && c08IsSbhCommitRace(se.String()) {
+				res.Finding = findingSbhCommit
+			} else {
+				res.Finding = ""
+			}
 		} else if err != nil {
 			tail := se.String()
 			if len(tail) > 1200 {
@@ -440,7 +454,7 @@ func runC08Race(ops []string) CaseResult {
 			res.Fails = append(res.Fails, fmt.Sprintf("op %d (%s): child failed: %v\n%s", i, op, err, tail))
 			out = "child-error"
 		}
-		if !raceEnabled {
+		if needRace && !raceEnabled {
 			res.Fails = append(res.Fails, "harness: suite c08race must be built with -race (suite config \"race\": true)")
 		}
 		res.Outs = append(res.Outs, out)
@@ -449,16 +463,50 @@ func runC08Race(ops []string) CaseResult {
 	return res
 }
 
+const findingSbhCommit = "C08-setblockhash-commit-race"
+
+// c08IsSbhCommitRace: the two stacks of the report are BlockCache.SetBlockHash (top frame of one) and
+// StateCache.commit (top frame of the other), nothing else
+func c08IsSbhCommitRace(report string) bool {
+	var tops []string
+	lines := strings.Split(report, "\n")
+	for i, l := range lines {
+		t := strings.TrimSpace(l)
+		if (strings.HasPrefix(t, "Write at") || strings.HasPrefix(t, "Read at") || strings.HasPrefix(t, "Previous write at") || strings.HasPrefix(t, "Previous read at")) && i+1 < len(lines) {
+			tops = append(tops, strings.TrimSpace(lines[i+1]))
+		}
+	}
+	if len(tops) != 2 {
+		return false
+	}
+	sbh, cm := 0, 0
+	for _, t := range tops {
+		if strings.Contains(t, "statecache.(*BlockCache).SetBlockHash()") {
+			sbh++
+		}
+		if strings.Contains(t, "statecache.(*StateCache).commit()") {
+			cm++
+		}
+	}
+	return sbh == 1 && cm == 1
+}
+
 type c08rBlock struct {
 	prev   string
 	writes map[string]string // key -> value token ("" = no write)
 }
 
+type c08rHandles struct {
+	bc *statecache.BlockCache
+	tc *statecache.TransactionCache
+}
+
 type c08rStore struct {
-	mu     sync.RWMutex
-	blocks map[string]*c08rBlock
-	order  []string
-	done   map[string]bool // Commit has returned
+	mu      sync.RWMutex
+	blocks  map[string]*c08rBlock
+	order   []string
+	done    map[string]bool          // Commit has returned
+	handles map[string]*c08rHandles // the block's own block / transaction cache (shared with the readers)
 }
 
 func (s *c08rStore) chain(key, hash string) (string, bool) {
@@ -481,6 +529,7 @@ func (s *c08rStore) chain(key, hash string) (string, bool) {
 func c08RaceChild(args []string) {
 	atoi := func(s string) int { n, _ := strconv.Atoi(s); return n }
 	seed, nC, nR, perRun, nKeys, millis := int64(atoi(args[0])), atoi(args[1]), atoi(args[2]), atoi(args[3]), atoi(args[4]), atoi(args[5])
+	sbhCommit := len(args) > 6 && args[6] == "sbhcommit"
 	if perRun > 150 {
 		perRun = 150 // stay below the per-key capacity of 200 (entries per key <= blocks per run)
 	}
@@ -499,12 +548,12 @@ func c08RaceChild(args []string) {
 	for run := 0; time.Now().Before(deadline); run++ {
 		runs++
 		sc := statecache.NewStateCache()
-		st := &c08rStore{blocks: map[string]*c08rBlock{}, done: map[string]bool{}}
+		st := &c08rStore{blocks: map[string]*c08rBlock{}, done: map[string]bool{}, handles: map[string]*c08rHandles{}}
 		// genesis
 		st.blocks["g"] = &c08rBlock{prev: "", writes: map[string]string{}}
 		st.order = append(st.order, "g")
 		gb := statecache.NewBlockCache(sc, statecache.Block{Hash: "g"})
-		for k := 0; k < nKeys; k++ {
+		for k := 0; k < nKeys; k += 2 { // odd keys get their version map from whichever committer writes them first
 			key := fmt.Sprintf("k%d", k)
 			st.blocks["g"].writes[key] = "67" + fmt.Sprintf("%02x", k)
 			gb.Set(key, &bval{b: unhx(st.blocks["g"].writes[key])})
@@ -559,7 +608,16 @@ func c08RaceChild(args []string) {
 					st.mu.Lock()
 					st.blocks[hash] = blk
 					st.order = append(st.order, hash)
+					st.handles[hash] = &c08rHandles{bc, tc}
 					st.mu.Unlock()
+					var sbhDone chan struct{}
+					if r.Intn(4) == 0 {
+						// the miner learns the hash late: SetBlockHash concurrently with lookups through the block's caches
+						// (and, with the case flag `sbhcommit`, also overlapping the block's Commit)
+						sbhDone = make(chan struct{})
+						wg.Add(1)
+						go func() { defer wg.Done(); bc.SetBlockHash(hash); close(sbhDone) }()
+					}
 					if r.Intn(8) == 0 {
 						// a second block cache for the same block with the same content commits concurrently
 						bc2 := statecache.NewBlockCache(sc, statecache.Block{Hash: hash, PrevHash: prev})
@@ -568,6 +626,9 @@ func c08RaceChild(args []string) {
 						}
 						wg.Add(1)
 						go func() { defer wg.Done(); bc2.Commit() }()
+					}
+					if sbhDone != nil && !sbhCommit {
+						<-sbhDone
 					}
 					bc.Commit()
 					atomic.AddInt64(&commits, 1)
@@ -609,14 +670,30 @@ func c08RaceChild(args []string) {
 						}
 						hash = st.order[lo+r.Intn(len(st.order)-lo)]
 					}
+					hd := st.handles[hash]
 					st.mu.RUnlock()
 					key := fmt.Sprintf("k%d", r.Intn(nKeys))
 					var got statecache.Value
 					var ok bool
-					switch r.Intn(3) {
-					case 0:
+					switch v := r.Intn(6); {
+					case v >= 3 && hd != nil:
+						// through the block's OWN block / transaction cache, possibly while that block is being committed:
+						// pending writes first, then the parent's view before / the block's own view after the commit —
+						// for a registered block both are the chain answer at the block
+						switch v {
+						case 3:
+							got, ok = hd.bc.Get(key)
+						case 4:
+							got, ok = hd.tc.Get(key)
+						default:
+							if sbhCommit {
+								hd.bc.SetBlockHash(hash)
+							}
+							got, ok = statecache.NewTransactionCache(hd.bc).Get(key)
+						}
+					case v%3 == 0:
 						got, ok = sc.Get(key, hash)
-					case 1:
+					case v%3 == 1:
 						got, ok = statecache.NewQueryBlockCache(sc, hash).Get(key)
 					default:
 						// a fresh child context of the block: falls through to StateCache.Get(key, hash)
@@ -685,7 +762,11 @@ func genC08Race(r *rand.Rand, tier string, idx int) []string {
 	}
 	nC := []int{1, 2, 4, 8}[idx%4]
 	nR := []int{8, 4, 8, 2}[idx%4]
-	return []string{fmt.Sprintf("race %d %d %d %d %d %d", r.Intn(1<<30), nC, nR, 60+r.Intn(90), 1+r.Intn(4), ms)}
+	op := fmt.Sprintf("race %d %d %d %d %d %d", r.Intn(1<<30), nC, nR, 60+r.Intn(90), 2+r.Intn(4), ms)
+	if idx%6 == 5 {
+		op += " sbhcommit" // SetBlockHash may overlap Commit (open finding C08-setblockhash-commit-race)
+	}
+	return []string{op}
 }
 
 func init() {
@@ -705,8 +786,28 @@ func init() {
 		},
 	})
 	register(&Suite{
+		Name: "c08free",
+		Rule: "the free-running workload of c08race in a child process WITHOUT the race detector (many more interleavings per second; mostly 4..8 committers racing to create the version maps of fresh keys): semantic oracles only — every hit equals the chain answer, a block's own writes are found after its Commit returned, full sweep at the end; non-trivial = child completed",
+		Gen: func(r *rand.Rand, tier string, idx int) []string {
+			ms := 300
+			if tier == "thorough" {
+				ms = 3000
+			}
+			return []string{fmt.Sprintf("race %d %d %d %d %d %d", r.Intn(1<<30), []int{8, 4, 8, 6}[idx%4], []int{2, 4, 8, 1}[idx%4], 40+r.Intn(110), 2+r.Intn(6), ms)}
+		},
+		Run:         runC08Free,
+		Serial:      true,
+		CaseTimeout: 120 * time.Second,
+		DefaultN: func(tier string) int {
+			if tier == "thorough" {
+				return 16
+			}
+			return 8
+		},
+	})
+	register(&Suite{
 		Name: "c08race",
-		Rule: "free-running child process under the race detector: 1..8 committers growing a forked block tree (parents in flight, duplicate concurrent commits of one block) and 2..8 readers looking up random keys at old, recent and in-flight blocks through StateCache / QueryBlockCache / BlockCache; every hit compared with the chain oracle, own writes looked up after Commit returns, full sweep at the end; DATA RACE report = failure; non-trivial = child completed",
+		Rule: "free-running child process under the race detector: 1..8 committers growing a forked block tree (parents in flight, duplicate concurrent commits of one block, keys whose version map is created by racing committers, SetBlockHash concurrent with lookups) and 2..8 readers looking up random keys at old, recent and in-flight blocks through StateCache / QueryBlockCache / fresh child BlockCaches and through the committing block's OWN BlockCache / TransactionCache handles; every hit compared with the chain oracle, own writes looked up after Commit returns, full sweep at the end; DATA RACE report = failure; non-trivial = child completed",
 		Gen:  genC08Race,
 		Run:  runC08Race,
 		Serial:      true,
